@@ -588,7 +588,9 @@ class Client(base_client.BaseClient):
             # the server is disconnecting every namespace that is left
             will_reconnect = False
         error = None
-        if self.connected:
+        if self.connected or self.namespaces:
+            # (the connect handler of a namespace has run once it is listed,
+            # also while connect() is still waiting for the other namespaces)
             reported = []
             for n in list(self.namespaces):
                 if n in self._ending_namespaces or n not in self.namespaces:
